@@ -1,5 +1,39 @@
 """C12 Floating-point values survive bit-exactly; half precision converts per IEEE 754."""
+import json
+import os
+import time
 from . import core
+
+
+def narrowing_sweep(ver, binp, wd, tlc_out):
+    """DESIGN.md section 8: the rows TLC printed for the rounding classes (all of them in thorough: 2 x 256 x 1024 x 4) become a binary table; the
+    harness runs Encoder::f16 on every single-precision pattern whose class has a row (all 2^32 in thorough) and compares with the row."""
+    import struct
+    t0 = time.time()
+    table = bytearray(b"\xff\xff" * (2 * 256 * 1024 * 4))
+    rows = 0
+    with open(tlc_out, errors="replace") as f:
+        for line in f:
+            if line.startswith('<<"TBL", '):
+                s_, e_, c_, tc, h = (int(x) for x in line[9:].rstrip().rstrip(">").split(", "))
+                ix = ((s_ * 256 + e_) * 1024 + c_) * 4 + tc
+                struct.pack_into("<H", table, 2 * ix, 0xfffe if h == 65535 else h)
+                rows += 1
+    os.remove(tlc_out)
+    if rows == 0:
+        raise core.ToolError("MC_C12 printed no table rows")
+    tp = os.path.join(wd, "f16table.bin")
+    open(tp, "wb").write(table)
+    out = os.path.join(wd, "sweepf16.json")
+    summ = core.run_harness(binp, ["sweepf16", tp, out], timeout=7200)
+    doc = json.load(open(out))
+    for m in doc["mismatches"]:
+        ver.mismatch("S->I narrowing sweep", {"fam": "sweepf16", "name": "f16", "in": m, "obs": {"p": "differs-from-class-row"}})
+    ver.cov["evaluations"] += summ["narrowed"]
+    ver.cov["traces_validated_against_impl"] += summ["narrowed"]
+    ver.cov["stages"].append({"stage": "S->I narrowing sweep (class rows of MC_C12 x every single-precision pattern of those classes)", "class_rows": rows,
+                              "patterns_narrowed": summ["narrowed"], "mismatches": len(doc["mismatches"]), "wall_s": round(time.time() - t0, 1)})
+    os.remove(tp)
 
 
 def run(ver):
@@ -8,8 +42,11 @@ def run(ver):
     res = core.run_tlc("MC_C12", "MC_C12.cfg", wd, consts={"Tier": f'"{ver.tier}"'}, timeout=3000)
     core.tlc_failure(res, "MC_C12")
     ver.add_mc(res, "MC_C12: all 65536 half patterns, stratified singles over every rounding class; invariants ExactOnImage NaNStaysNaN BytesRoundTrip Overflow Bracket Monotone")
+    res_out = res["out_path"] + ".keep"
+    os.link(res["out_path"], res_out)
     core.replay_cases(ver, binp, res["out_path"], wd, "mc_c12")
     core.validate_traces(ver, binp, "c12", "Trace_C12", wd, gen_args=["20000"])
+    narrowing_sweep(ver, binp, wd, res_out)
     ver.assumptions += ["TLC evaluates the TLA+ operators correctly",
                         "NaN results of widening / narrowing are accepted as any NaN of the right width (payload and quiet bit not pinned)",
                         "not all 2^32 single patterns go through TLC: every (sign, exponent, leading 10 mantissa bits) x 6 tail patterns in the thorough tier, a stratum in quick, "
